@@ -91,7 +91,7 @@ Proof.
     + destruct (alive s && all_done (tasks s)); inversion H; subst. apply GQ_tick. gq_plain s G Hpc.
   - (* Step *)
     unfold step_task in H.
-    destruct (pcof s t) as [|g|g|g a|g|g|g o st|g|g o|g o k|g o k|g o k|r|r|o|o| |o|o|o|o|o|o|n|ds| | | |r] eqn:Hpc;
+    destruct (pcof s t) as [|g|g|g a|g|g|g o st|g|g o|g o k|g o k|g o k|r|r|o|o| |o|o|o|o|o|o|n|ds| | | |n|ds|ds| | |r] eqn:Hpc;
       cbn [option_map] in H; try discriminate H.
     + (* GStart *) destruct (gr g); [|destruct (runtime c)..]; inversion H; subst; apply GQ_tick; gq_plain s G Hpc.
     + (* GAcq *) inversion H; subst. apply GQ_tick, GQ_acquire; [exact G|rewrite Hpc; reflexivity].
@@ -127,13 +127,25 @@ Proof.
     + (* TLock *) inversion H; subst. apply GQ_tick. gq_plain s G Hpc.
     + (* TAdd *) inversion H; subst. apply GQ_tick. gq_sem s G Hpc.
     + (* TDetach *) inversion H; subst. apply GQ_tick. gq_plain s G Hpc.
-    + (* OResize *)
+    + (* OResize: to its lock point *) inversion H; subst. apply GQ_tick. gq_plain s G Hpc.
+    + (* ORetain: to the lock point of its status() call *) inversion H; subst. apply GQ_tick. gq_plain s G Hpc.
+    + (* OClose: to its lock point *) inversion H; subst. apply GQ_tick. gq_plain s G Hpc.
+    + (* OStatus: to its lock point *) inversion H; subst. apply GQ_tick. gq_plain s G Hpc.
+    + (* ODropPool *)
+      inversion H; subst. apply GQ_tick.
+      match goal with |- GQ (setpc (emit_destroyed t ?l ?x) t _) =>
+        pose proof (emit_destroyed_fields t l x) as F; cbv zeta in F; sp;
+        destruct F as (F1&F2&F3&F4&F5&F6&F7&F8&F9&F10&F11&F12&F13) end.
+      eapply GQ_setpc with (s := s); [|rewrite F9; reflexivity|rewrite Hpc; reflexivity].
+      apply GQ_same with s; [rewrite F3; reflexivity|rewrite F1; reflexivity|rewrite F2; reflexivity|rewrite F9; reflexivity|exact G].
+    + (* OResizeL *)
       destruct (closed s); inversion H; subst; apply GQ_tick; [gq_plain s G Hpc|].
       pose proof (resize_locked_effect s t (Z.of_nat n) G Hd (Zle_0_nat n)) as E. cbv zeta in E.
       destruct E as (_&_&_&_&_&_&_&_&_&_&_&_&_&_&_&G'&Hpcs).
       apply GQ_setpc with (s := resize_locked s t (Z.of_nat n)); [exact G'|reflexivity|].
       rewrite Hpcs; rewrite Hpc; reflexivity.
-    + (* ORetain *)
+    + (* ORetainS: to retain's own lock point *) inversion H; subst. apply GQ_tick. gq_plain s G Hpc.
+    + (* ORetainL *)
       pose proof (retain_loop_effect t ds (vec s) s) as E.
       destruct (retain_loop t ds (vec s) s) as [[s1 kept] removed].
       destruct E as (E1&E2&E3&E4&E5&E6&E7&E8&E9&E10&E11&E12&E13&E14).
@@ -143,7 +155,7 @@ Proof.
         destruct F as (F1&F2&F3&F4&F5&F6&F7&F8&F9&F10&F11&F12&F13) end.
       eapply GQ_setpc with (s := s); [|rewrite F9; exact E9|rewrite Hpc; reflexivity].
       apply GQ_same with s; [rewrite F3; exact E3|rewrite F1; exact E1|rewrite F2; exact E2|rewrite F9; exact E9|exact G].
-    + (* OClose *)
+    + (* OCloseL *)
       inversion H; subst. apply GQ_tick.
       set (s0 := set_queue (set_closed s true) []).
       assert (G0 : GQ s0).
@@ -157,17 +169,10 @@ Proof.
       destruct E as (_&_&_&_&_&_&_&_&_&_&_&_&_&_&_&G'&Hpcs).
       apply GQ_setpc with (s := resize_locked s0 t 0); [exact G'|reflexivity|].
       rewrite Hpcs; (change (pcof s0 t) with (pcof s t)); rewrite Hpc; reflexivity.
-    + (* OStatus *) inversion H; subst. apply GQ_tick. gq_plain s G Hpc.
-    + (* ODropPool *)
-      inversion H; subst. apply GQ_tick.
-      match goal with |- GQ (setpc (emit_destroyed t ?l ?x) t _) =>
-        pose proof (emit_destroyed_fields t l x) as F; cbv zeta in F; sp;
-        destruct F as (F1&F2&F3&F4&F5&F6&F7&F8&F9&F10&F11&F12&F13) end.
-      eapply GQ_setpc with (s := s); [|rewrite F9; reflexivity|rewrite Hpc; reflexivity].
-      apply GQ_same with s; [rewrite F3; reflexivity|rewrite F1; reflexivity|rewrite F2; reflexivity|rewrite F9; reflexivity|exact G].
+    + (* OStatusL *) inversion H; subst. apply GQ_tick. gq_plain s G Hpc.
   - (* Env *)
     unfold env_task in H.
-    destruct (pcof s t) as [|g|g|g a|g|g|g o st|g|g o|g o k|g o k|g o k|r0|r0|o|o| |o|o|o|o|o|o|n|ds| | | |r0] eqn:Hpc;
+    destruct (pcof s t) as [|g|g|g a|g|g|g o st|g|g o|g o k|g o k|g o k|r0|r0|o|o| |o|o|o|o|o|o|n|ds| | | |n|ds|ds| | |r0] eqn:Hpc;
       cbn [option_map] in H; try discriminate H.
     + (* GRec *)
       destruct r; inversion H; subst; apply GQ_tick; try (gq_plain s G Hpc).
@@ -183,7 +188,7 @@ Proof.
         unfold enter_postc, hand_out; gq_plain s G Hpc.
   - (* Cancel *)
     unfold cancel_task in H.
-    destruct (pcof s t) as [|g|g|g a|g|g|g o st|g|g o|g o k|g o k|g o k|r0|r0|o|o| |o|o|o|o|o|o|n|ds| | | |r0] eqn:Hpc;
+    destruct (pcof s t) as [|g|g|g a|g|g|g o st|g|g o|g o k|g o k|g o k|r0|r0|o|o| |o|o|o|o|o|o|n|ds| | | |n|ds|ds| | |r0] eqn:Hpc;
       cbn [option_map] in H; try discriminate H.
     + inversion H; subst. apply GQ_tick. apply GQ_leave_wait; [exact G| |reflexivity].
       intros ->. rewrite Hpc. reflexivity.
@@ -192,7 +197,7 @@ Proof.
     + destruct (is_async (pcr c) k); inversion H; subst. apply GQ_tick. gq_plain s G Hpc.
   - (* Fire *)
     unfold fire_task in H. destruct (negb (runtime c)); [discriminate|].
-    destruct (pcof s t) as [|g|g|g a|g|g|g o st|g|g o|g o k|g o k|g o k|r0|r0|o|o| |o|o|o|o|o|o|n|ds| | | |r0] eqn:Hpc;
+    destruct (pcof s t) as [|g|g|g a|g|g|g o st|g|g o|g o k|g o k|g o k|r0|r0|o|o| |o|o|o|o|o|o|n|ds| | | |n|ds|ds| | |r0] eqn:Hpc;
       cbn [option_map] in H; try discriminate H.
     + destruct (gw g); inversion H; subst. apply GQ_tick. apply GQ_leave_wait; [exact G| |reflexivity].
       intros ->. rewrite Hpc. reflexivity.
@@ -270,7 +275,7 @@ Proof.
     + destruct (alive s && all_done (tasks s)); inversion H; subst. apply GA_tick. ga_plain A Hpc.
   - (* Step *)
     unfold step_task in H.
-    destruct (pcof s t) as [|g|g|g a|g|g|g o st|g|g o|g o k|g o k|g o k|r|r|o|o| |o|o|o|o|o|o|n|ds| | | |r] eqn:Hpc;
+    destruct (pcof s t) as [|g|g|g a|g|g|g o st|g|g o|g o k|g o k|g o k|r|r|o|o| |o|o|o|o|o|o|n|ds| | | |n|ds|ds| | |r] eqn:Hpc;
       cbn [option_map] in H; try discriminate H.
     + (* GStart *) destruct (gr g); [|destruct (runtime c)..]; inversion H; subst; apply GA_tick; ga_plain A Hpc.
     + (* GAcq *) inversion H; subst. apply GA_tick, GA_acquire; assumption.
@@ -300,7 +305,18 @@ Proof.
     + (* TLock *) inversion H; subst. apply GA_tick. ga_plain A Hpc.
     + (* TAdd *) inversion H; subst. apply GA_tick. ga_sem s t G A Hpc.
     + (* TDetach *) inversion H; subst. apply GA_tick. ga_plain A Hpc.
-    + (* OResize *)
+    + (* OResize: to its lock point *) inversion H; subst. apply GA_tick. ga_plain A Hpc.
+    + (* ORetain: to the lock point of its status() call *) inversion H; subst. apply GA_tick. ga_plain A Hpc.
+    + (* OClose: to its lock point *) inversion H; subst. apply GA_tick. ga_plain A Hpc.
+    + (* OStatus: to its lock point *) inversion H; subst. apply GA_tick. ga_plain A Hpc.
+    + (* ODropPool *)
+      inversion H; subst. apply GA_tick.
+      match goal with |- GA (setpc (emit_destroyed t ?l ?x) t _) =>
+        pose proof (emit_destroyed_fields t l x) as F; cbv zeta in F; sp;
+        destruct F as (F1&F2&F3&F4&F5&F6&F7&F8&F9&F10&F11&F12&F13) end.
+      destruct A as [A1 A2 A3 A4 A5].
+      constructor; sp; rewrite ?F11, ?F6, ?F7; try (intros Ha; discriminate Ha); assumption.
+    + (* OResizeL *)
       destruct (closed s); inversion H; subst; apply GA_tick; [ga_plain A Hpc|].
       pose proof (resize_locked_effect s t (Z.of_nat n) G (a_debt _ A) (Zle_0_nat n)) as E. cbv zeta in E.
       destruct E as (E1&E2&E3&E4&E5&E6&E7&E8&E9&E10&E11&E12&E13&E14&E15&G'&Hpcs).
@@ -310,7 +326,8 @@ Proof.
         try (intros Ha; specialize (A1 Ha); specialize (A2 Ha); specialize (A3 Ha));
         rewrite ?(sum_upd PNone) by reflexivity; unfold pcof in Hpc, Hpc'; rewrite ?Hpc', ?Hpc, ?E10, ?E11;
         cbn [hp cs up]; lia.
-    + (* ORetain *)
+    + (* ORetainS: to retain's own lock point *) inversion H; subst. apply GA_tick. ga_plain A Hpc.
+    + (* ORetainL *)
       pose proof (retain_loop_effect t ds (vec s) s) as E.
       destruct (retain_loop t ds (vec s) s) as [[s1 kept] removed].
       destruct E as (E1&E2&E3&E4&E5&E6&E7&E8&E9&E10&E11&E12&E13&E14).
@@ -323,7 +340,7 @@ Proof.
         try (intros Ha; specialize (A1 Ha); specialize (A2 Ha); specialize (A3 Ha));
         rewrite ?(sum_upd PNone) by reflexivity; unfold pcof in Hpc; rewrite ?Hpc;
         cbn [hp cs up]; unfold zlen in *; lia.
-    + (* OClose *)
+    + (* OCloseL *)
       inversion H; subst. apply GA_tick.
       set (s0 := set_queue (set_closed s true) []).
       assert (G0 : GQ s0).
@@ -343,17 +360,10 @@ Proof.
         try (intros Ha; specialize (A1 Ha); specialize (A2 Ha); specialize (A3 Ha));
         rewrite ?(sum_upd PNone) by reflexivity; unfold pcof in Hpc, Hpc'; rewrite ?Hpc', ?Hpc, ?E10, ?E11;
         cbn [hp cs up]; lia.
-    + (* OStatus *) inversion H; subst. apply GA_tick. ga_plain A Hpc.
-    + (* ODropPool *)
-      inversion H; subst. apply GA_tick.
-      match goal with |- GA (setpc (emit_destroyed t ?l ?x) t _) =>
-        pose proof (emit_destroyed_fields t l x) as F; cbv zeta in F; sp;
-        destruct F as (F1&F2&F3&F4&F5&F6&F7&F8&F9&F10&F11&F12&F13) end.
-      destruct A as [A1 A2 A3 A4 A5].
-      constructor; sp; rewrite ?F11, ?F6, ?F7; try (intros Ha; discriminate Ha); assumption.
+    + (* OStatusL *) inversion H; subst. apply GA_tick. ga_plain A Hpc.
   - (* Env *)
     unfold env_task in H.
-    destruct (pcof s t) as [|g|g|g a|g|g|g o st|g|g o|g o k|g o k|g o k|r0|r0|o|o| |o|o|o|o|o|o|n|ds| | | |r0] eqn:Hpc;
+    destruct (pcof s t) as [|g|g|g a|g|g|g o st|g|g o|g o k|g o k|g o k|r0|r0|o|o| |o|o|o|o|o|o|n|ds| | | |n|ds|ds| | |r0] eqn:Hpc;
       cbn [option_map] in H; try discriminate H.
     + (* GRec *)
       destruct r; inversion H; subst; apply GA_tick; [|ga_plain A Hpc..].
@@ -369,7 +379,7 @@ Proof.
         ga_plain A Hpc.
   - (* Cancel *)
     unfold cancel_task in H.
-    destruct (pcof s t) as [|g|g|g a|g|g|g o st|g|g o|g o k|g o k|g o k|r0|r0|o|o| |o|o|o|o|o|o|n|ds| | | |r0] eqn:Hpc;
+    destruct (pcof s t) as [|g|g|g a|g|g|g o st|g|g o|g o k|g o k|g o k|r0|r0|o|o| |o|o|o|o|o|o|n|ds| | | |n|ds|ds| | |r0] eqn:Hpc;
       cbn [option_map] in H; try discriminate H.
     + inversion H; subst. apply GA_tick. eapply GA_leave_wait; try eassumption; reflexivity.
     + destruct (stage_async c st); inversion H; subst. apply GA_tick. ga_plain A Hpc.
@@ -377,7 +387,7 @@ Proof.
     + destruct (is_async (pcr c) k); inversion H; subst. apply GA_tick. ga_plain A Hpc.
   - (* Fire *)
     unfold fire_task in H. destruct (negb (runtime c)); [discriminate|].
-    destruct (pcof s t) as [|g|g|g a|g|g|g o st|g|g o|g o k|g o k|g o k|r0|r0|o|o| |o|o|o|o|o|o|n|ds| | | |r0] eqn:Hpc;
+    destruct (pcof s t) as [|g|g|g a|g|g|g o st|g|g o|g o k|g o k|g o k|r0|r0|o|o| |o|o|o|o|o|o|n|ds| | | |n|ds|ds| | |r0] eqn:Hpc;
       cbn [option_map] in H; try discriminate H.
     + destruct (gw g); inversion H; subst. apply GA_tick. eapply GA_leave_wait; try eassumption; reflexivity.
     + destruct st; try discriminate H. destruct (timed (gr g)); inversion H; subst. apply GA_tick. ga_plain A Hpc.
